@@ -4,6 +4,7 @@ import (
 	"encoding/json"
 	"fmt"
 	"sort"
+	"strconv"
 	"strings"
 
 	"verifharness/core"
@@ -27,7 +28,8 @@ type c17Ledger struct {
 	feesPaid map[string]uint64
 	// mintFee returns the fee the mint at host charges for inputs of these keysets
 	mintFee  func(host string, ids []string) uint64
-	overpaid []string // swaps whose outputs were worth less than inputs minus the mint's fee
+	overpaid []string // swaps whose outputs were worth less than inputs minus the mint's fee; melts whose inputs exceed quote + fee
+	quoteCost map[string]uint64
 }
 
 func inputIds(v any) []string {
@@ -94,11 +96,25 @@ func (l *c17Ledger) feed(rec *inproc.Record) {
 				l.overpaid = append(l.overpaid, fmt.Sprintf("swap #%d at %s: inputs %d, mint fee %d, outputs signed %d: %d sat given away", rec.Seq, rec.Host, in, fee, out, in-out-fee))
 			}
 		}
+	case rec.Method == "POST" && rec.Path == "/v1/melt/quote/bolt11":
+		// what a quote costs: amount + fee reserve (inputs beyond that, and the mint's input fee, are never returned)
+		resp := parseObj(rec.RespBody)
+		if q, _ := resp["quote"].(string); q != "" {
+			if l.quoteCost == nil {
+				l.quoteCost = map[string]uint64{}
+			}
+			l.quoteCost[q] = jsonU64(resp["amount"]) + jsonU64(resp["fee_reserve"])
+		}
 	case rec.Method == "POST" && rec.Path == "/v1/melt/bolt11":
 		req, resp := parseObj(rec.ReqBody), parseObj(rec.RespBody)
 		q, _ := req["quote"].(string)
 		m := &c17Melt{host: rec.Host, inputs: sumAmounts(req["inputs"])}
 		l.melts[q] = m
+		if cost, ok := l.quoteCost[q]; ok && l.mintFee != nil {
+			if fee := l.mintFee(rec.Host, inputIds(req["inputs"])); m.inputs > cost+fee {
+				l.overpaid = append(l.overpaid, fmt.Sprintf("melt #%d at %s: inputs %d for a quote of %d (amount + fee reserve) and a mint fee of %d: %d sat given away", rec.Seq, rec.Host, m.inputs, cost, fee, m.inputs-cost-fee))
+			}
+		}
 		if st, _ := resp["state"].(string); st == "PAID" {
 			m.settled = true
 			l.redeemed[rec.Host] += m.inputs
@@ -230,7 +246,23 @@ func runC17(r *core.Run) {
 			}
 			w.Rec.Forget(cursor)
 			if len(led.overpaid) > 0 {
-				r.Violate("no-loss:swap-pays-more-than-the-mint-fee:after-"+op, "a swap request asked for outputs worth less than its inputs minus the mint's fee; the difference is in no wallet, no token, no melt and is not a mint fee: "+led.overpaid[0], csig, s.Tail(8))
+				kind := "swap"
+				if strings.HasPrefix(led.overpaid[0], "melt") {
+					kind = "melt"
+				}
+				if kind == "melt" && !strings.HasPrefix(op, "melt") {
+					// a mint-to-mint swap melts a round share of its proofs on purpose (it cannot know the fee and
+					// this mint returns no change) and tells its caller what arrived: not a loss of the kind meant here
+					r.Observe("melt-inputs-beyond-quote:"+op, led.overpaid[0])
+					led.overpaid = nil
+				}
+			}
+			if len(led.overpaid) > 0 {
+				kind := "swap"
+				if strings.HasPrefix(led.overpaid[0], "melt") {
+					kind = "melt"
+				}
+				r.Violate("no-loss:"+kind+"-pays-more-than-the-mint-fee:after-"+op, "a request handed the mint more than the operation costs (outputs worth less than inputs minus the mint's fee / melt inputs beyond amount, fee reserve and fee); the difference is in no wallet, no token, no melt and is not a mint fee: "+led.overpaid[0], csig, s.Tail(8))
 				led.overpaid = nil
 			}
 			// ---- model updates from the operation's specification
@@ -533,4 +565,15 @@ func cmpWordU(a, b uint64) string {
 		return "more-than-model"
 	}
 	return "less-than-model"
+}
+
+func jsonU64(v any) uint64 {
+	switch x := v.(type) {
+	case json.Number:
+		n, _ := strconv.ParseUint(x.String(), 10, 64)
+		return n
+	case float64:
+		return uint64(x)
+	}
+	return 0
 }
